@@ -67,7 +67,10 @@ def gen_run(seed, tier, i):
     s_fault = rng.stream(NAME, tier, seed, i, "faults")
     s_ops = rng.stream(NAME, tier, seed, i, "ops")
     if i < plan["catalogue"]:
-        st = structures.gen_structure(s_struct, max_stems=6, knotted_bias=1.0)
+        if i % 4 == 3:
+            st = structures.gen_many(s_struct, 10, 14)
+        else:
+            st = structures.gen_structure(s_struct, max_stems=6, knotted_bias=1.0)
         steps = []
         for k, partial in enumerate(catalogue(s_cfg)):
             step = dict(partial)
@@ -85,11 +88,15 @@ def gen_run(seed, tier, i):
     fault_rate = s_cfg.choice([0.0, 0.3, 0.5, 0.5, 0.8, 1.0])
     stop_after = s_cfg.choice([None, None, s_cfg.randint(0, nsteps)])
     reuse_structure = s_cfg.random() < 0.3
-    pool = [structures.gen_structure(s_struct, max_stems=7, knotted_bias=0.75) for _ in range(3)]
+    def fresh_structure():
+        if s_struct.random() < 0.15:
+            return structures.gen_many(s_struct, 10, 14)
+        return structures.gen_structure(s_struct, max_stems=7, knotted_bias=0.75)
+
+    pool = [fresh_structure() for _ in range(3)]
     steps = []
     for k in range(nsteps):
-        st = s_struct.choice(pool) if reuse_structure else structures.gen_structure(
-            s_struct, max_stems=7, knotted_bias=0.75)
+        st = s_struct.choice(pool) if reuse_structure else fresh_structure()
         backend = s_cfg.choices(enabled, ew)[0]
         op = s_ops.choice(ops)
         via = "property" if op != "dot_bracket" else s_ops.choice(["property", "property", "argument"])
